@@ -37,7 +37,7 @@ def _digests(prop, runs, jobs, chunk, hashseed, reverse=False, tier="quick"):
     env = dict(os.environ)
     env["LEASIM_HASHSEED"] = str(hashseed)
     cmd = [str(VERIF / "check"), prop, "--tier", tier, "--runs", str(runs), "--jobs", str(jobs), "--chunk", str(chunk),
-           "--no-evidence", "--digests", path]
+           "--no-evidence", "--digests", path, "--budget", "36000"]   # (every seed must complete in every configuration)
     if reverse:
         cmd.append("--reverse")
     p = subprocess.run(cmd, env=env, capture_output=True, text=True)
@@ -61,8 +61,9 @@ def determinism(props, runs) -> int:
         t0 = time.time()
         configs = [(16, 7, 0, False), (5, 3, 0, True), (16, 11, 12345, False), (3, 2, 777, True)]
         results = []
+        n_runs = min(runs, 64) if prop == "C11" else runs     # (two fresh interpreters per run: ~1.5 s each)
         for jobs, chunk, hs, rev in configs:
-            d, rc, tail = _digests(prop, runs, jobs, chunk, hs, rev)
+            d, rc, tail = _digests(prop, n_runs, jobs, chunk, hs, rev)
             if rc not in (0, 1):
                 print(f"{prop}: run (jobs={jobs}, chunk={chunk}, hashseed={hs}) exited {rc}:\n{tail}")
                 bad += 1
